@@ -197,6 +197,36 @@ fn panic_viol(kind: Kind, opname: &str, extra: &[&'static str]) -> Viol {
     Viol { monitor: "M-PANIC", op: opname.to_string(), kind: kind.name(), detail: format!("panic: {}", msg), props }
 }
 
+/// Control for "the queue stays usable after <event>" continuations: the same operations on a
+/// queue in the same state that never saw the event. A violation here belongs to the operations
+/// themselves (reported under their own properties), not to the event under test; the caller then
+/// skips the tagged continuation.
+pub fn control_run<Q: QueueApi>(ctl: State<Q>, ops: &[Op], universe: &[u32], sorted: bool) -> Result<(), Viol> {
+    let mut ctl = ctl;
+    let r = catch_unwind(AssertUnwindSafe(|| -> Result<(), Viol> {
+        ctl.post_check("control", &[], universe, true)?;
+        for op in ops {
+            ctl.exec(op)?;
+            ctl.post_check(op.name(), op.extra_props(), universe, true)?;
+        }
+        if sorted && !ctl.order_suspended {
+            ctl.exec(&Op::SortedCheck)?;
+        }
+        Ok(())
+    }));
+    match r {
+        Ok(Ok(())) => Ok(()),
+        Ok(Err(v)) => {
+            std::mem::forget(ctl);
+            Err(v)
+        }
+        Err(_) => {
+            std::mem::forget(ctl);
+            Err(panic_viol(Q::KIND, "control", &[]))
+        }
+    }
+}
+
 /// Run one history. `next_op` yields the next operation given the current model / snapshot
 /// (generator) or the next recorded one (replay). Returns the reports and the trace.
 pub fn run_history<Q: QueueApi>(
@@ -243,6 +273,10 @@ pub fn run_history<Q: QueueApi>(
             }
             if s.tables().is_err() {
                 st.tables_broken = true;
+                st.order_suspended = true;
+            }
+            if matches!(reports.last().map(|r| r.viol.monitor), Some("M-ORDER")) {
+                // reported against the constructor; later operations did not cause it
                 st.order_suspended = true;
             }
             st.m = Model::from_snap(&s);
